@@ -93,6 +93,9 @@ def matches(f, pid, v):
         mm = re.search(r'"excess",\s*(\d+)', v.get("diag", ""))
         if not mm or int(mm.group(1)) > f["max_excess"]:
             return False
+    if "diag_contains" in f and f["diag_contains"] not in re.sub(r"\s+", " ", v.get("diag", "")):
+        # the specification's own diagnosis of the failure must carry this marker
+        return False
     pred = PREDICATES.get(f.get("where", "any"))
     if pred is None:
         return False
